@@ -39,6 +39,7 @@ def run(chk, replay=None):
         variants["rtf50"] = dict(drive="run", rtf=50)
         for i in range(3): variants[f"pert{3 + i}"] = dict(drive="reset_step", perturb=dict(kind="random", seed=r.getrandbits(16), p=0.5, max_ms=4))
     # starvation variants are per graph (owner names); added below through a generator wrapper
+    variants["two_episodes"] = dict(drive="reset_step", episodes=2)      # same graph object, same initial state, second episode
     starve_owners = ["n0", "n1", "n0>n1", "n1>n0"] if not quick else ["n0", "n0>n1"]
     for o in starve_owners: variants[f"starve:{o}"] = dict(drive="reset_step", perturb=dict(kind="starve", owner=o, ms=3))
     def gen(rnd, max_nodes=4):
@@ -57,6 +58,12 @@ def run(chk, replay=None):
                 continue
             eps[vn] = al.canon_neg(rr["episodes"][0]); chk.traces_impl += 1
         chk.case(repr(cfg), al.features(cfg) + [f"K={len(eps)}"], dict(cfg=cfg, variants=sorted(eps)) if len(chk.samples) < 2 else None)
+        # a later episode of the same graph object from the same initial state records the same as the first one
+        if "two_episodes" in G["runs"] and "error" not in G["runs"]["two_episodes"]:
+            e2 = G["runs"]["two_episodes"]["episodes"]
+            if len(e2) > 1 and "error" not in e2[1]["record"] and "error" not in e2[0]["record"]:
+                d = compare_runs(cfg, al.canon_neg(e2[0]), al.canon_neg(e2[1]))
+                if d: chk.violation("episode-depends-on-previous-episode", f"second episode on the same graph from the same initial state differs from the first: {d}", dict(cfg=cfg))
         names = sorted(eps)
         if not names: continue
         base = names[0]
